@@ -252,7 +252,7 @@ func vfE3HTTPXOp(v *vfE3Node, w []string) (string, []string) {
 	if rec.Code == 500 && !(path == "/ping" && !healthy) {
 		nilResult := path == "/debug/freememory" || path == "/debug/setblockrate"
 		if nilResult && method != "OPTIONS" && wire.kind == "err:INTERNAL_ERROR" {
-			// finding F18: PlainText panics on a handler that returns (nil, nil); the action itself was
+			// finding F24: PlainText panics on a handler that returns (nil, nil); the action itself was
 			// performed. Reported under its own key; the line continues as the repaired behaviour.
 			fails = append(fails, fmt.Sprintf("ORACLE-FAIL key=debug-nil-500 req=%s what=%s %s?%s is a complete, valid request and was answered 500 INTERNAL_ERROR (http_api.PlainText panics on a nil result)", line, method, path, query))
 			wire = vfE3Wire{"200", "0", "0", "empty"}
